@@ -366,3 +366,23 @@ def n1(ctx, rels, lookup_rels=(), scope=None):
                      f"None-default parameter(s) {sorted(nonep)} only tested "
                      "by identity")
     return n_params
+
+
+
+_MIRROR = {ast.Lt: ast.Gt, ast.Gt: ast.Lt, ast.LtE: ast.GtE, ast.GtE: ast.LtE,
+           ast.Eq: ast.Eq, ast.NotEq: ast.NotEq}
+
+
+def norm_compare(c):
+    """A single comparison with a constant operand moved to the right:
+    -> (left expr, op class, right expr), or None.  `0 >= x` is `x <= 0`."""
+    if not (isinstance(c, ast.Compare) and len(c.ops) == 1):
+        return None
+    a, b, op = c.left, c.comparators[0], type(c.ops[0])
+    if isinstance(a, ast.Constant) or (
+            isinstance(a, ast.UnaryOp) and isinstance(a.operand,
+                                                      ast.Constant)):
+        if op not in _MIRROR:
+            return None
+        return b, _MIRROR[op], a
+    return a, op, b
